@@ -448,13 +448,15 @@ Section WildLib.
       Forall quiet evQ /\
       (forall x, In x U -> In (bid x) (keys (store (db s3))) ->
                  In (bid x) (keys (store (db s'))) \/ bnum x < rn (libref (db s'))) /\
-      (forall k, In k (keys (store (db s'))) -> In k (keys (store (db s3)))).
+      (forall k, In k (keys (store (db s'))) -> In k (keys (store (db s3)))) /\
+      (* when every block lies above the first streamable block the LIB number does not decrease *)
+      ((forall x, In x U -> first < bnum x) -> rn (libref (db s3)) <= rn (libref (db s'))).
 
   Lemma lib_half_stay s3 Fin S3 b evs : Inv s3 Fin S3 -> last_sent s3 = Some b ->
     LibHalf s3 Fin S3 b evs (s3, evs, ROk).
   Proof.
     intros HI Hls. exists s3, [], []. rewrite !app_nil_r. split; [reflexivity|].
-    split; [exact HI|]. split; [exact Hls|]. split; [constructor|]. split; auto.
+    split; [exact HI|]. split; [exact Hls|]. split; [constructor|]. split; [auto|]. split; [auto|]. intros _. lia.
   Qed.
 
   Lemma dbinv_purge d libr kept q x B :
@@ -597,7 +599,19 @@ Section WildLib.
       + right. apply N.leb_gt in Fe.
         assert (Ex : eb e = x) by (apply U_uniq; [apply HU; exact He | exact Hx | exact Hk]).
         rewrite <- Ex. lia.
-    - intros k Hk. rewrite Hdb, Hst' in Hk. eapply in_filter_keys. exact Hk.
+    - split; [intros k Hk; rewrite Hdb, Hst' in Hk; eapply in_filter_keys; exact Hk|].
+      intros Hfirst. rewrite Hdb, Hl'.
+      pose proof (rs_first_guard _ _ _ _ _ _ _ Hrs) as G.
+      destruct (chain_top_stored _ _ _ _ Hq Hqne) as (e' & Fe' & _).
+      destruct (bic_num_spec _ _ _ _ Hbic) as [-> | [Z | [(e1 & Fe1 & En)|[(y & pn & Hy & Hlt)|Hnone]]]].
+      + cbn [bref rn] in *. pose proof (Hfirst b Hb). lia.
+      + contradiction.
+      + pose proof (Hfirst (eb e1) (HU e1 (proj1 (find_some _ _ _ Fe1)))). lia.
+      + unfold num_of in Hy. destruct (find y (store (db s3))) as [ey|] eqn:Fy.
+        * injection Hy as <-. pose proof (Hfirst (eb ey) (HU ey (proj1 (find_some _ _ _ Fy)))). lia.
+        * destruct Hextra as [Hx|Hx]; rewrite Hx in Hy; [discriminate|].
+          destruct (ri (libref (db s3)) =? y); [|discriminate]. injection Hy as <-. lia.
+      + congruence.
   Qed.
 
   (* ---------------------------------------------------------------- one ProcessBlock call *)
@@ -619,17 +633,19 @@ Section WildLib.
       known s' b /\
       (* the first event ever delivered carries the LIB id the stream is rooted at *)
       (last_sent s = None ->
-       match evA ++ evQ with e0 :: _ => ri (elib e0) = ri r0 | [] => last_sent s' = None end).
+       match evA ++ evQ with e0 :: _ => ri (elib e0) = ri r0 | [] => last_sent s' = None end) /\
+      (* when every block lies above the first streamable block the LIB number does not decrease *)
+      ((forall x, In x U -> first < bnum x) -> rn (libref (db s)) <= rn (libref (db s'))).
 
   Lemma stepout_quiet s Fin S b s' : Inv s' Fin S ->
     (known s b -> s' = s) -> (forall x, In x U -> known s x -> known s' x) -> known s' b ->
-    last_sent s' = last_sent s ->
+    last_sent s' = last_sent s -> libref (db s') = libref (db s) ->
     StepOut s Fin S b (s', [], ROk).
   Proof.
-    intros HI Hk1 Hk2 Hk3 Hls. exists s', [], [], Fin, S.
+    intros HI Hk1 Hk2 Hk3 Hls Hlr. exists s', [], [], Fin, S.
     split; [reflexivity|]. split; [reflexivity|]. split; [exact HI|].
     split; [constructor|]. split; [intros H; auto|]. split; [intros _; exact Hk2|]. split; [exact Hk3|].
-    intros H. cbn [app]. congruence.
+    split; [intros H; cbn [app]; congruence|]. intros _. rewrite Hlr. lia.
   Qed.
 
   (* assembling a triggering step from its two halves *)
@@ -643,7 +659,7 @@ Section WildLib.
   Proof.
     intros Hb Hk Hdr Happ HI3 Hk3 Hls3 Hl3 Hne Hnsd Hevs Hel.
     destruct (lib_half s3 Fin S3 b evs HI3 Hls3 Hb Hne Hnsd)
-      as (s' & evQ & Fnew & -> & HI' & Hls' & HsQ & Hkeys & _).
+      as (s' & evQ & Fnew & -> & HI' & Hls' & HsQ & Hkeys & _ & Hmn).
     exists s', evs, evQ, (Fin ++ Fnew), S3.
     split; [reflexivity|]. split; [exact Happ|]. split; [exact HI'|]. split; [exact HsQ|].
     assert (Hdrop : forall x, bnum x < rn (libref (db s')) -> dropped s' x = true).
@@ -657,8 +673,10 @@ Section WildLib.
       + apply Hkn; [exact Hx|]. rewrite Hk3. apply in_or_app. left. exact H.
       + right. apply Hdrop. unfold dropped in H. apply andb_true_iff in H as [H _]. apply N.ltb_lt in H. lia.
     - split; [apply Hkn; [exact Hb|]; rewrite Hk3; apply in_or_app; right; left; reflexivity|].
-      intros Hn. destruct evs as [|e0 evs']; [congruence|]. cbn [app].
-      exact (Forall_inv (Hel Hn)).
+      split.
+      + intros Hn. destruct evs as [|e0 evs']; [congruence|]. cbn [app].
+        exact (Forall_inv (Hel Hn)).
+      + intros Hfirst. rewrite <- Hl3. exact (Hmn Hfirst).
   Qed.
 
   (* a block that is already stored: nothing happens (a stored root is stored again, unchanged) *)
@@ -721,7 +739,8 @@ Section WildLib.
       + left. rewrite Hdbs2. cbn [new_db store]. rewrite keys_snoc. apply in_or_app. left. exact H.
       + unfold dropped in H. rewrite Els, andb_false_r in H. discriminate.
     - split; [left; rewrite Hdbs2; cbn [new_db store]; rewrite keys_snoc; apply in_or_app; right; left; reflexivity|].
-      intros _. cbn [app ev elib]. exact Hcur.
+      split; [intros _; cbn [app ev elib]; exact Hcur|].
+      intros _. rewrite Hdbs2. cbn [new_db libref]. lia.
   Qed.
 
   Lemma step_inv s Fin S b : Inv s Fin S -> In b U -> StepOut s Fin S b (fk_step cfg s b).
@@ -838,18 +857,19 @@ Section WildLib.
     length t = length h /\ Forall (fun x => snd x = ROk) t /\
     (exists S', apply_all (ri r0) S (all_events t) = Some S') /\
     (lib_mono_b cfg s h = true -> c01_refeed_b seen h t = true) /\
-    first_lib s t.
+    first_lib s t /\
+    ((forall x, In x U -> first < bnum x) -> lib_mono_b cfg s h = true).
   Proof.
     induction h as [|b h IH]; intros s Fin S seen HI Hh Hseen.
     - cbn. repeat split; [constructor | exists S; reflexivity].
     - destruct (step_inv s Fin S b HI (Hh b (or_introl eq_refl))) as
-        (s' & evA & evQ & Fin' & S' & Hstep & Happ & HI' & HsQ & Hk1 & Hk2 & Hk3 & Hfl).
+        (s' & evA & evQ & Fin' & S' & Hstep & Happ & HI' & HsQ & Hk1 & Hk2 & Hk3 & Hfl & Hmn).
       cbn [fk_run lib_mono_b]. rewrite Hstep.
       assert (Happ' : apply_all (ri r0) S (evA ++ evQ) = Some S').
       { rewrite (apply_all_app _ _ _ _ _ Happ). apply apply_all_inert. exact HsQ. }
       assert (Hh' : forall x, In x h -> In x U) by (intros x Hx; apply Hh; right; exact Hx).
-      destruct (IH s' Fin' S' [] HI' Hh' (fun x (Hx : In x []) => match Hx with end)) as (Hlen & Hok & (S2 & Happ2) & _ & Hfl2).
-      cbn zeta in *. split; [|split; [|split; [|split]]].
+      destruct (IH s' Fin' S' [] HI' Hh' (fun x (Hx : In x []) => match Hx with end)) as (Hlen & Hok & (S2 & Happ2) & _ & Hfl2 & Hmn2).
+      cbn zeta in *. split; [|split; [|split; [|split; [|split]]]].
       + cbn [length]. rewrite Hlen. reflexivity.
       + constructor; [reflexivity | exact Hok].
       + exists S2. unfold all_events. cbn [map concat fst]. fold (all_events (fk_run cfg s' h)).
@@ -859,13 +879,14 @@ Section WildLib.
         { intros x [<-|Hx].
           - split; [apply Hh; left; reflexivity | exact Hk3].
           - destruct (Hseen x Hx) as [HxU Hkx]. split; [exact HxU | apply (Hk2 Hm1); assumption]. }
-        destruct (IH s' Fin' S' (b :: seen) HI' Hh' Hseen') as (_ & _ & _ & Hre & _).
+        destruct (IH s' Fin' S' (b :: seen) HI' Hh' Hseen') as (_ & _ & _ & Hre & _ & _).
         cbn [c01_refeed_b]. rewrite (Hre Hm2), andb_true_r.
         destruct (existsb (block_eqb b) seen) eqn:Hex; [|reflexivity].
         apply existsb_exists in Hex as (x & Hx & Heq). apply block_eqb_eq in Heq. subst x.
         destruct (Hseen b Hx) as [_ Hb]. destruct (Hk1 Hb) as (_ & -> & ->). reflexivity.
       + intros Hn. specialize (Hfl Hn). unfold all_events. cbn [map concat fst]. fold (all_events (fk_run cfg s' h)).
         destruct (evA ++ evQ) as [|e0 rest]; cbn [app]; [exact (Hfl2 Hfl) | exact Hfl].
+      + intros Hfirst. rewrite (Hmn2 Hfirst), andb_true_r. apply N.leb_le. exact (Hmn Hfirst).
   Qed.
 
   Theorem wild_lib_run m h : rooted m -> (forall b, In b h -> In b U) ->
@@ -874,9 +895,10 @@ Section WildLib.
     (exists S', apply_all (ri r0) [] (all_events t) = Some S') /\
     c01_discipline_b m t = true /\
     c01_error_b (c_fail_at cfg) 0 t = true /\
-    (lib_mono_b cfg (fs_init m) h = true -> c01_refeed_b [] h t = true).
+    (lib_mono_b cfg (fs_init m) h = true -> c01_refeed_b [] h t = true) /\
+    ((forall x, In x U -> first < bnum x) -> lib_mono_b cfg (fs_init m) h = true).
   Proof.
-    intros Hm Hh. destruct (run_wild h (fs_init m) [] [] [] (inv_init m Hm) Hh) as (Hlen & Hok & (S' & Happ) & Hre & _).
+    intros Hm Hh. destruct (run_wild h (fs_init m) [] [] [] (inv_init m Hm) Hh) as (Hlen & Hok & (S' & Happ) & Hre & _ & Hmn).
     { intros x []. }
     cbn zeta. repeat split; try assumption.
     - exists S'. exact Happ.
